@@ -1,26 +1,25 @@
 """C16 - im2col/col2im variants agree and col2im is the adjoint of im2col (shared-structure clauses only)."""
-from sa import rules_conv as RC, rules_kernel as K
+from sa import rules_convpe as CP, rules_kernel as K
 
 CT = 'synapgrad.conv_tools'
 
 
 def check(model, R, tier):
-    funcs = model.module_functions(CT)
-    RC.check_outsize(model, R, 'C16')
-    RC.check_geom(model, R, 'C16', funcs)
-    RC.check_empty(model, R, 'C16')
-    RC.check_strided(model, R, 'C16')
+    frames = CP.check_conv_pe(model, R, 'C16')
     # ACCUMULATE: each col2im-side routine adds window contributions into a zero-initialised buffer
     R.rule('C16.ACCUMULATE', 'every col2im-side routine accumulates window contributions into a zero-initialised buffer (np.add.at, +=, or read-add-store of the same slice)', floor=3)
     sub = _Sub(R, 'C16.ACCUMULATE')
     K.check_scatter(model, sub, [model.func(CT + '.' + n) for n in ('col2im', 'col2im_v2', 'place_windows')], 'x', floor=3)
-    RC.check_pairs(model, R, 'C16')
+    CP.check_pairs_pe(model, R, 'C16', frames)
     return dict(
-        explanation='Equality of three implementations over all geometries is a value property and is not decided. Decided are the shared-structure clauses whose violation makes the variants disagree or breaks adjointness for some '
-                    'geometry: one output-size formula at all 8 sites (polynomial normal form), geometry normalisation before subscripting, empty-output rejection, accumulating scatters into zero buffers, gather/scatter through the same '
-                    'index helper with the same roles, polynomially equal window slices in the loop variants, identical geometry roles and inverse reshapes in the strided-view variants, pad/crop pairing and the 2-D layout permutation and its inverse.',
-        assumptions=['a gather and an accumulating scatter over the same index set are adjoint', 'agreement of the strided-view extractor with the index/loop variants is not decided'],
-        technique='polynomial normal form of size / slice arithmetic + dominance (geometry typestate) + call-binding role comparison + linearity-domain scatter rule')
+        explanation='Numerical equality of the three implementations is a value property and is not decided. Decided, by partially evaluating every conv_tools routine on a symbolic (N, C, H, W) input with symbolic geometry '
+                    '(shape-level interpretation of NumPy, terms compared in polynomial normal form): one output-size formula at every window count (helpers, loop bounds, ndindex extents, strided-view shape, buffers); int geometry is '
+                    'broadcast before per-axis use; empty outputs raise before any array is built; the strided view addresses padded[n, c, i*s + m*d, ..] (shape and byte strides of a C-contiguous array, made contiguous when needed); '
+                    'loop variants read / accumulate exactly the rows i*s .. step d and column i*lW + j; place_windows adds window (i, j) at the rows the view read; gather and np.add.at scatter use the same index triple from the same '
+                    'helper with equal geometry on buffers of the padded shape; pad (p, p) with pad_value / crop p : size + p pairing; the 2-D layout permutation and its inverse in all variants; accumulating scatters into zero buffers.',
+        assumptions=['a gather and an accumulating scatter over the same index set are adjoint', 'the index arithmetic inside get_im2col_indices (which windows k, i, j enumerate) is shared by gather and scatter and is not itself compared with the loop variants',
+                     'NumPy shape semantics of pad / reshape / transpose / moveaxis / as_strided as modelled in sa/rules_convpe.py'],
+        technique='partial evaluation with path enumeration over a shape-level abstract domain (symbolic arrays + polynomial normal form) + linearity-domain scatter rule')
 
 
 class _Sub:
